@@ -263,7 +263,11 @@ class xfunc_count(xfunc):
                     raise ValueError(
                         "Cannot determine counts with no dimensions, weights, or N."
                     )
-                counts[:] = self.weights.sum()
+                if self.weights.shape:
+                    counts[:] = self.weights.sum()
+                else:
+                    # Scalar weight. Broadcast over the N rows.
+                    counts[:] = self.weights * self.N
                 valid_counts[:] = numpy.count_nonzero(self.validity, axis=0)
                 if not self.ignore_missing:
                     missing_counts[:] = numpy.count_nonzero(~self.validity, axis=0)
